@@ -956,28 +956,116 @@ func (c *Ctx) flagPrinterObligations(et *enumTables, first, last *enumConst, lo 
 				}
 				return true
 			})
+			info := p.TypesInfo
+			// the loop may live in a shared helper that receives the set, the bounds and a naming
+			// function: appendBitNames(names, uint64(flags), uint64(First), uint64(Last), name)
+			linfo := info
+			bind := map[types.Object]ast.Expr{} // helper parameter → argument at the call in fn
+			strip := func(ii *types.Info, e ast.Expr) ast.Expr {
+				for {
+					e = unparen(e)
+					if call, ok := e.(*ast.CallExpr); ok && len(call.Args) == 1 {
+						if tv, ok := ii.Types[call.Fun]; ok && tv.IsType() {
+							e = call.Args[0]
+							continue
+						}
+					}
+					return e
+				}
+			}
+			if loop == nil {
+				ast.Inspect(fd.Body, func(n ast.Node) bool {
+					call, ok := n.(*ast.CallExpr)
+					if !ok || loop != nil {
+						return true
+					}
+					h := calleeOf(info, call)
+					hfd := c.funcDecl(h)
+					if hfd == nil || hfd.Body == nil || h.Pkg() == nil || !c.isLLVM(h.Pkg().Path()) {
+						return true
+					}
+					passes := false
+					for _, a := range call.Args {
+						if id, ok := strip(info, a).(*ast.Ident); ok && id.Name == param {
+							passes = true
+						}
+					}
+					if !passes {
+						return true
+					}
+					var hl *ast.ForStmt
+					ast.Inspect(hfd.Body, func(m ast.Node) bool {
+						if f, ok := m.(*ast.ForStmt); ok && hl == nil {
+							hl = f
+						}
+						return true
+					})
+					if hl == nil {
+						return true
+					}
+					loop, linfo = hl, c.declPkg[hfd].TypesInfo
+					k := 0
+					for _, f := range hfd.Type.Params.List {
+						for _, nm := range f.Names {
+							if k < len(call.Args) {
+								bind[linfo.Defs[nm]] = call.Args[k]
+							}
+							k++
+						}
+					}
+					return true
+				})
+			}
 			if loop == nil {
 				return
 			}
 			found = true
 			o := Obligation{Key: fmt.Sprintf("%s set printer %s", key, funcKey(fn)), Pos: c.pos(loop.Pos()), Verdict: OK}
-			info := p.TypesInfo
 			bad := func(s string) {
 				o.Verdict = VIOL
 				o.Detail = s
+			}
+			// resolve an expression of the loop to what it denotes at the call: conversions are
+			// stripped, helper parameters replaced by the arguments
+			constName := func(e ast.Expr) string {
+				e = strip(linfo, e)
+				if id, ok := e.(*ast.Ident); ok {
+					if a, ok := bind[linfo.ObjectOf(id)]; ok {
+						if k, ok := info.Uses[selIdent(strip(info, a))].(*types.Const); ok {
+							return k.Name()
+						}
+						return ""
+					}
+				}
+				if k, ok := linfo.Uses[selIdent(e)].(*types.Const); ok {
+					return k.Name()
+				}
+				return ""
+			}
+			isSetParam := func(e ast.Expr) bool {
+				e = strip(linfo, e)
+				id, ok := e.(*ast.Ident)
+				if !ok {
+					return false
+				}
+				if a, ok := bind[linfo.ObjectOf(id)]; ok {
+					aid, ok := strip(info, a).(*ast.Ident)
+					return ok && aid.Name == param
+				}
+				return len(bind) == 0 && id.Name == param
 			}
 			// init: mask := First
 			mv := ""
 			if as, ok := loop.Init.(*ast.AssignStmt); ok && len(as.Lhs) == 1 && len(as.Rhs) == 1 {
 				mv = exprString(as.Lhs[0])
-				if k, ok := info.Uses[selIdent(as.Rhs[0])].(*types.Const); !ok || k.Name() != first.Name {
+				if constName(as.Rhs[0]) != first.Name {
 					bad("loop does not start at " + first.Name)
 				}
 			} else {
 				bad("unrecognised loop init")
 			}
 			if be, ok := loop.Cond.(*ast.BinaryExpr); ok && be.Op == token.LEQ && exprString(be.X) == mv {
-				if k, ok := info.Uses[selIdent(be.Y)].(*types.Const); !ok || k.Name() != last.Name {
+				if constName(be.Y) != last.Name {
 					bad("loop does not end at " + last.Name)
 				}
 			} else if o.Verdict == OK {
@@ -988,28 +1076,83 @@ func (c *Ctx) flagPrinterObligations(et *enumTables, first, last *enumConst, lo 
 					bad("loop step is not mask <<= 1")
 				}
 			}
-			// body: if flags&mask != 0 { ss = append(ss, mask.String()) }
+			// body: for every set bit the name of *that* mask is emitted —
+			//   if flags&mask != 0 { … mask.String() / name(mask) … }
 			okBody := false
-			if len(loop.Body.List) == 1 {
-				if is, ok := loop.Body.List[0].(*ast.IfStmt); ok && is.Else == nil && len(is.Body.List) == 1 {
-					cond := strings.ReplaceAll(exprString(is.Cond), " ", "")
-					if cond == param+"&"+mv+"!=0" || cond == mv+"&"+param+"!=0" {
-						if as, ok := is.Body.List[0].(*ast.AssignStmt); ok && len(as.Rhs) == 1 {
-							if strings.Contains(exprString(as.Rhs[0]), mv+".String()") && strings.HasPrefix(exprString(as.Rhs[0]), "append(") {
-								okBody = true
-							}
+			ast.Inspect(loop.Body, func(n ast.Node) bool {
+				is, ok := n.(*ast.IfStmt)
+				if !ok || okBody {
+					return true
+				}
+				be, ok := unparen(is.Cond).(*ast.BinaryExpr)
+				if !ok || be.Op != token.NEQ {
+					return true
+				}
+				and, ok := unparen(be.X).(*ast.BinaryExpr)
+				if !ok || and.Op != token.AND {
+					return true
+				}
+				if tv := linfo.Types[be.Y]; tv.Value == nil || tv.Value.String() != "0" {
+					return true
+				}
+				x, y := and.X, and.Y
+				if exprString(unparen(x)) == mv {
+					x, y = y, x
+				}
+				if exprString(unparen(y)) != mv || !isSetParam(x) {
+					return true
+				}
+				// the emitted name is computed from the mask
+				ast.Inspect(is.Body, func(m ast.Node) bool {
+					call, ok := m.(*ast.CallExpr)
+					if !ok {
+						return true
+					}
+					if se, ok := unparen(call.Fun).(*ast.SelectorExpr); ok && se.Sel.Name == "String" && exprString(unparen(se.X)) == mv {
+						okBody = true
+					}
+					if len(call.Args) == 1 && exprString(strip(linfo, call.Args[0])) == mv {
+						if t := linfo.TypeOf(call); t != nil && isPlainString(t) {
+							okBody = true // name(mask): a naming function applied to the mask
 						}
 					}
-				}
-			}
+					return true
+				})
+				return true
+			})
 			if !okBody && o.Verdict == OK {
-				bad("loop body is not `if flags&mask != 0 { ss = append(ss, mask.String()) }`")
+				bad("loop body does not emit the name of the mask for every set bit (`if flags&mask != 0 { … mask.String() … }`)")
+			}
+			// the mask visits every bit: only the loop's own step changes it, and no iteration is
+			// cut short before the test
+			if o.Verdict == OK {
+				ast.Inspect(loop.Body, func(n ast.Node) bool {
+					switch x := n.(type) {
+					case *ast.FuncLit:
+						return false
+					case *ast.AssignStmt:
+						for _, l := range x.Lhs {
+							if exprString(unparen(l)) == mv {
+								bad(fmt.Sprintf("the mask is also changed inside the loop body (`%s %s …`): together with the loop's own step some bit is never visited, so the flag with that bit is silently dropped from the printed set", mv, x.Tok))
+							}
+						}
+					case *ast.IncDecStmt:
+						if exprString(unparen(x.X)) == mv {
+							bad("the mask is also changed inside the loop body")
+						}
+					case *ast.BranchStmt:
+						if x.Tok == token.BREAK || x.Tok == token.GOTO {
+							bad("the loop over the bits can be left early")
+						}
+					}
+					return true
+				})
 			}
 			// declared single-bit members below First need their own mask test before the loop
 			if o.Verdict == OK && lo >= 0 && lo < first.Val {
 				covered := false
 				ast.Inspect(fd.Body, func(n ast.Node) bool {
-					if be, ok := n.(*ast.BinaryExpr); ok && be.Op == token.AND && exprString(be.X) == param {
+					if be, ok := n.(*ast.BinaryExpr); ok && be.Op == token.AND && exprString(strip(info, be.X)) == param {
 						if tv, ok := info.Types[be.Y]; ok && tv.Value != nil {
 							if m, ok := constant.Int64Val(constant.ToInt(tv.Value)); ok && m == first.Val-1 {
 								covered = true
